@@ -40,6 +40,9 @@ TARGETS = {
     "parse_oracle": dict(flavour="asan", srcs=LIBS + ["fuzz/parse.cpp", "fuzz/standalone_main.cpp"]),
     "parse_depth_plain": dict(flavour="plain", srcs=LIBS + ["fuzz/parse.cpp", "fuzz/standalone_main.cpp"]),
     "runner": dict(flavour="asan", srcs=LIBS + RUNNER_SRCS),
+    "fuzz_json": dict(flavour="asan", srcs=LIBS + ["fuzz/json.cpp"], ld=["-fsanitize=fuzzer"]),
+    "json_oracle": dict(flavour="asan", srcs=LIBS + ["fuzz/json.cpp", "fuzz/standalone_main.cpp"]),
+    "json_plain": dict(flavour="plain", srcs=LIBS + ["fuzz/json.cpp", "fuzz/standalone_main.cpp"]),
     "collide": dict(flavour="plain", srcs=["tools_cpp/collide.cpp"]),
     "arith": dict(flavour="plain", srcs=LIBS + ["arith/arith.cpp"], ld=["-lrapidcheck"]),
 }
